@@ -121,7 +121,7 @@ var c17CompileAlphabet = []COpt{
 	{Kind: "exp"}, {Kind: "perm"}, {Kind: "fn", Name: "fz", Fn: "badsig:firstparam"},
 }
 
-var badSigs = []string{"int", "string", "nil", "noparams", "firstparam", "oneresult", "secondresult", "firstresult", "threeresults", "noresults", "concreteerr"}
+var badSigs = []string{"int", "string", "nil", "noparams", "firstparam", "oneresult", "secondresult", "firstresult", "threeresults", "noresults", "concreteerr", "threeresults-errlast", "tworesults-twice", "fourresults"}
 
 // nthList returns the n-th list over an alphabet of size k in length-then-lexicographic order
 // (lists of length 0, then 1, ...); ok=false beyond maxLen.
@@ -296,6 +296,10 @@ func genC17(seed uint64, run int, tier string) *Case {
 			op.Opts = randOpts(nil)
 		case x < 15:
 			op.Tmpl, op.Src, op.COpts = "where-call", "Patient.name.where(ot())", fn("ot", "obsT")
+			if r.p(0.25) {
+				// (a built-in cannot be replaced - whatever the spelling of the name that is registered)
+				op.COpts = append(op.COpts, COpt{Kind: "fn", Name: pick(r, []string{"`where`", "Where", "`exists`", "'where'"}), Fn: "empty"})
+			}
 			op.Opts = randOpts(nil)
 		case x < 16:
 			op.Tmpl, op.K = "where-failat", 1+r.n(4)
@@ -351,6 +355,10 @@ func genC17(seed uint64, run int, tier string) *Case {
 			case 0:
 				op.Src, op.Arg = "mt()", t1
 				op.COpts = []COpt{{Kind: "fn", Name: "mt", Fn: kind + ":" + t1}}
+				if r.p(0.35) {
+					// a name that only looks like mt once something is stripped or folded is another name
+					op.COpts = append(op.COpts, COpt{Kind: "fn", Name: pick(r, []string{"`mt`", "Mt", "MT", "'mt'", "mt "}), Fn: kind + ":" + t2})
+				}
 			case 1:
 				op.Src, op.Arg = "mt() & '|' & mu()", t1+"|"+t2
 				op.COpts = []COpt{{Kind: "fn", Name: "mt", Fn: kind + ":" + t1}, {Kind: "fn", Name: "mu", Fn: kind + ":" + t2}}
@@ -408,7 +416,7 @@ func genC17(seed uint64, run int, tier string) *Case {
 				o.Fn = "badsig:" + pick(r, badSigs)
 			}
 			if o.Kind == "fn" && r.p(0.3) {
-				o.Name = pick(r, []string{"fa", "fb", "fc", "now", "exists", "join", "trace"})
+				o.Name = pick(r, []string{"fa", "fb", "fc", "now", "exists", "join", "trace", "`fa`", "`where`", "Fa", "`join`"})
 			}
 			opts = append(opts, o)
 		}
